@@ -1449,3 +1449,80 @@ func sameNamedValuesFamily() []*Program {
 	}
 	return out
 }
+
+// spellingTwinsFamily: Go gives some types two spellings (rune/int32, byte/uint8,
+// any/interface{}); they are one type. One source written with one spelling feeds two
+// consumers written with the other and the same spelling in one injector: the source is
+// created once and both consumers receive that one value. Sources: provider function,
+// wire.Value, injector argument, struct field. The twin sits directly, as element, map
+// key, function parameter, channel element and behind a pointer.
+func spellingTwinsFamily() []*Program {
+	var out []*Program
+	n := 0
+	emptyIface := func() *Ty { return &Ty{K: "iface"} }
+	type pair struct {
+		name string
+		a, b func(c *Ty) *Ty
+	}
+	fn := func(param *Ty, ret *Ty) *Ty { return &Ty{K: "func", Params: []*Ty{param}, Elem: ret} }
+	pairs := []pair{
+		{"rune-int32", func(*Ty) *Ty { return Basic("rune") }, func(*Ty) *Ty { return Basic("int32") }},
+		{"slice-of-rune", func(*Ty) *Ty { return SliceOf(Basic("rune")) }, func(*Ty) *Ty { return SliceOf(Basic("int32")) }},
+		{"pointer-to-rune", func(*Ty) *Ty { return PtrTo(Basic("rune")) }, func(*Ty) *Ty { return PtrTo(Basic("int32")) }},
+		{"chan-of-rune", func(*Ty) *Ty { return ChanOf("", Basic("rune")) }, func(*Ty) *Ty { return ChanOf("", Basic("int32")) }},
+		{"map-keyed-by-byte", func(c *Ty) *Ty { return MapOf(Basic("byte"), c) }, func(c *Ty) *Ty { return MapOf(Basic("uint8"), c) }},
+		{"func-of-byte", func(c *Ty) *Ty { return fn(Basic("byte"), c) }, func(c *Ty) *Ty { return fn(Basic("uint8"), c) }},
+		{"func-of-any", func(c *Ty) *Ty { return fn(Basic("any"), c) }, func(c *Ty) *Ty { return fn(emptyIface(), c) }},
+		{"map-keyed-by-any", func(c *Ty) *Ty { return MapOf(Basic("any"), c) }, func(c *Ty) *Ty { return MapOf(emptyIface(), c) }},
+		{"func-of-slice-of-byte", func(c *Ty) *Ty { return fn(SliceOf(Basic("byte")), c) }, func(c *Ty) *Ty { return fn(SliceOf(Basic("uint8")), c) }},
+	}
+	for _, pr := range pairs {
+		for _, src := range []string{"func", "value", "arg", "field", "func-err-cleanup"} {
+			for _, flip := range []bool{false, true} {
+				n++
+				b := NewPB(fmt.Sprintf("sp%03d", n), "app")
+				elem := b.Carrier(0, "Elem")
+				ta, tb := pr.a(elem), pr.b(elem)
+				if flip {
+					ta, tb = tb, ta
+				}
+				if src == "value" && !ConstExpressible(ta) {
+					n--
+					continue
+				}
+				ca := b.Carrier(0, "FirstUser")
+				cb := b.Carrier(0, "SecondUser")
+				cc := b.Carrier(0, "ThirdUser")
+				root := b.Carrier(0, "Root")
+				// first and third user share the source's spelling, the second uses the other one
+				newA := b.Func(0, "NewFirstUser", ca, false, false, ta)
+				newB := b.Func(0, "NewSecondUser", cb, false, false, tb)
+				newC := b.Func(0, "NewThirdUser", cc, false, false, ta)
+				newRoot := b.Func(0, "NewRoot", root, false, false, ca, cb, cc)
+				build := refs(newA, newB, newC, newRoot)
+				var params []Param
+				cleanup, errr := false, false
+				switch src {
+				case "func":
+					build = append(build, ItemRef(b.Func(0, "NewShared", ta, false, false).ID))
+				case "func-err-cleanup":
+					build = append(build, ItemRef(b.Func(0, "NewShared", ta, true, true).ID))
+					cleanup, errr = true, true
+				case "value":
+					build = append(build, ItemRef(b.Value(ta).ID))
+				case "arg":
+					params = []Param{{Name: "shared", Ty: ta}}
+				case "field":
+					parent := b.NamedOf(0, "Holder", StructOf(idField, FieldT{Name: "Shared", Ty: ta}), "parent")
+					build = append(build, ItemRef(b.Func(0, "NewHolder", parent, false, false).ID), ItemRef(b.Fields(parent, "Shared").ID))
+				}
+				b.Inj("Init", root, cleanup, errr, params, build...)
+				cell := fmt.Sprintf("spelling-twins/%s/src=%s/flip=%v", pr.name, src, flip)
+				b.P.Note = cell
+				b.P.Feat = map[string]string{"cell": cell, "family": "spelling-twins"}
+				out = append(out, b.P)
+			}
+		}
+	}
+	return out
+}
